@@ -93,7 +93,7 @@ def run_tlc(module: str, cfg: str, *, overrides: dict | None = None, workers: in
         (work / name).write_text(content)
     out_dir = work / "out"
     out_dir.mkdir()
-    cmd = ["java", "-XX:+UseParallelGC", "-Xss16m"]
+    cmd = ["java", "-XX:+UseParallelGC", "-XX:ParallelGCThreads=%d" % max(2, workers // 2), "-Xss16m", "-Xmx6g"]
     if dfs:
         cmd.append("-Dtlc2.tool.queue.IStateQueue=StateDeque")
     cmd += ["-cp", JAR, "tlc2.TLC", "-workers", str(workers), "-metadir", str(work / "meta"),
